@@ -85,7 +85,10 @@ func genRacePlan(seed uint64, thorough bool) *Plan {
 			case 13:
 				items = append(items, Item{Op: "reconnect"})
 			case 14:
-				if g.chance(3) {
+				if g.chance(6) {
+					// kills everybody else, including connections that are just being set up
+					add("CLIENT", "KILL", "TYPE", "normal")
+				} else if g.chance(3) {
 					// kills another connection (or itself): its goroutines end while
 					// the others carry on
 					add("CLIENT", "KILL", "ID", "$id:"+strconv.Itoa(g.r.IntN(nc)))
@@ -123,8 +126,16 @@ func genRacePlan(seed uint64, thorough bool) *Plan {
 				default:
 					add("SORT", "l0", "ALPHA")
 				}
-			case 20:
-				add("SCAN", "0")
+			case 20, 25:
+				// iterations walk a table that writers grow and shrink
+				switch g.r.IntN(3) {
+				case 0:
+					add("SCAN", "0")
+				case 1:
+					add("HSCAN", "k1", "0", "COUNT", g.pick("1", "1000", "1000"))
+				default:
+					add("SSCAN", "k2", "0", "COUNT", g.pick("1", "1000", "1000"))
+				}
 			case 21:
 				items = append(items, Item{Op: "adv", N: int64(1100e6), Now: true})
 			default:
@@ -135,6 +146,10 @@ func genRacePlan(seed uint64, thorough bool) *Plan {
 			items = append(items, Item{Op: "close", Now: true})
 		}
 		p.Clients = append(p.Clients, Client{Items: items, Depth: 1 + g.r.IntN(2)})
+	}
+	if g.chance(3) {
+		// the owner of the emulator installs a dispatch hook while clients are active
+		p.Clients = append(p.Clients, Client{Name: "hooker", Items: []Item{{Op: "emu-sethook", N: 0}, {Op: "adv", N: int64(1e6)}, {Op: "emu-sethook", N: 0}}})
 	}
 	// lifecycle at the end: terminate while clients may still be active
 	if g.chance(2) {
